@@ -9,6 +9,8 @@ import (
 	"os"
 	"reflect"
 	"strings"
+	"sync"
+	"sync/atomic"
 	"testing"
 
 	mocker "github.com/tencent/goom"
@@ -487,4 +489,113 @@ func TestVerifC06Generics(t *testing.T) {
 		s.ProbeOK("generic-callback-dictionary")
 	}
 	s.Done()
+}
+
+// ---- concurrent builders, different methods: each named method gets its own callback ----
+
+type concCase struct {
+	Type    int   `json:"type"`
+	Methods []int `json:"methods"` // indices into the type's methods (taken modulo, duplicates dropped)
+	How     int   `json:"how"`
+	Rounds  int   `json:"rounds"`
+}
+
+func runConcMethods(ci interface{}, s *vkit.Stats) error {
+	c := ci.(*concCase)
+	ty := corpus.Types[c.Type%len(corpus.Types)]
+	var ms []*corpus.Method
+	seen := map[int]bool{}
+	for _, i := range c.Methods {
+		m := ty.Methods[i%len(ty.Methods)]
+		if !seen[m.Tag] {
+			seen[m.Tag] = true
+			ms = append(ms, m)
+		}
+	}
+	if len(ms) < 2 {
+		return nil
+	}
+	for round := 0; round < c.Rounds; round++ {
+		recs := make([]*corpus.Rec, len(ms))
+		bs := make([]*mocker.Builder, len(ms))
+		pvs := make([]interface{}, len(ms))
+		var ready, done sync.WaitGroup
+		start := make(chan struct{})
+		for i := range ms {
+			recs[i] = &corpus.Rec{Res: mresults(ms[i], int64(100*i+7))}
+			bs[i] = mocker.Create()
+			ready.Add(1)
+			done.Add(1)
+			go func(i int) {
+				defer done.Done()
+				ready.Done()
+				<-start
+				pvs[i] = guard(func() { apply(bs[i], ms[i], c.How+i, ms[i].MkRepl(recs[i]), nil) })
+			}(i)
+		}
+		ready.Wait()
+		close(start)
+		done.Wait()
+		var err error
+		for i, m := range ms {
+			if pvs[i] != nil {
+				err = fmt.Errorf("round %d: mocking %s.%s while other methods of the type were being mocked by other builders panicked: %v", round, ty.Name, m.Name, pvs[i])
+				break
+			}
+		}
+		for i, m := range ms {
+			if err != nil {
+				break
+			}
+			before := make([]int, len(recs))
+			for k := range recs {
+				before[k] = recs[k].Calls
+			}
+			ran := atomic.LoadInt64(m.Ran)
+			var got []reflect.Value
+			if pv := guard(func() { got = m.Call(i%corpus.NumInstances, margs(m, int64(round*31+i))) }); pv != nil {
+				err = fmt.Errorf("round %d: calling mocked %s.%s panicked: %v", round, ty.Name, m.Name, pv)
+				break
+			}
+			for k := range recs {
+				d := recs[k].Calls - before[k]
+				if k == i && d != 1 {
+					err = fmt.Errorf("round %d: %s.%s was mocked by its own builder but a call ran its callback %d times (original ran %d times)", round, ty.Name, m.Name, d, atomic.LoadInt64(m.Ran)-ran)
+				} else if k != i && d != 0 {
+					err = fmt.Errorf("round %d: a call of %s.%s ran the callback given for %s.%s", round, ty.Name, m.Name, ty.Name, ms[k].Name)
+				}
+			}
+			for k := range got {
+				if err == nil && !vkit.ContentEqual(got[k], recs[i].Res[k]) {
+					err = fmt.Errorf("round %d: %s.%s returned %s, its callback returned %s", round, ty.Name, m.Name, vkit.Describe(got[k]), vkit.Describe(recs[i].Res[k]))
+				}
+			}
+		}
+		for _, b := range bs {
+			b.Reset()
+		}
+		if err != nil {
+			return err
+		}
+	}
+	s.Class(fmt.Sprintf("concurrent/%d-methods", len(ms)))
+	s.NonTrivial(fmt.Sprint(ty.Name, c.Methods, c.How))
+	s.Sample(c)
+	return nil
+}
+
+func TestVerifC06Concurrent(t *testing.T) {
+	quiet()
+	p := &vkit.Prop{ID: "C06", Unit: "concurrent-methods", Journal: true,
+		New: func() interface{} { return &concCase{} },
+		Gen: func(rt *rapid.T) interface{} {
+			return &concCase{Type: rapid.IntRange(0, len(corpus.Types)-1).Draw(rt, "type"),
+				Methods: rapid.SliceOfN(rapid.IntRange(0, 7), 2, 4).Draw(rt, "methods"),
+				How:     rapid.IntRange(0, 5).Draw(rt, "how"), Rounds: vkit.Scale(4, 8)}
+		},
+		Run: runConcMethods}
+	s := p.Main(t, vkit.Scale(400, 4000))
+	if !vkit.Replaying() {
+		s.Done()
+	}
 }
